@@ -342,6 +342,9 @@ func (h *hist) check(w *world, only int, keyPrefix string) *failure {
 	}
 	if got != want {
 		field, detail := diff(&got, &want, only)
+		if h.acrossFlatten(w, field) {
+			return h.judge(w, "snapshot-layer:reader-across-flatten:"+field, field, acrossFlattenWhat+detail, only)
+		}
 		return h.judge(w, keyPrefix+field, field, detail, only)
 	}
 	if err := w.real.Error(); err != nil {
@@ -370,15 +373,21 @@ func (h *hist) check(w *world, only int, keyPrefix string) *failure {
 			h.st.distinct("geth_alone_disagreements", gd)
 			if os.Getenv("C08_DEBUG") != "" {
 				fmt.Fprintf(os.Stderr, "GETH-ALONE step %d: %s\n", h.step, gd)
-				if os.Getenv("C08_DEBUG") == "2" {
-					return h.fail("geth-alone", "%s", gd)
-				}
 			}
 			w.geth = nil
 		}
 	}
 	return nil
 }
+
+// acrossFlatten: w is a long-lived reader — it was opened through a snapshot layer
+// and layers have been flattened (Tree.Cap) since. Storage mismatches of such a
+// StateDB get their own key (see coldCopy).
+func (h *hist) acrossFlatten(w *world, field string) bool {
+	return h.tree != nil && w.viaSnap && h.flattens > w.flatAt && (field == "storage" || field == "committed-storage")
+}
+
+const acrossFlattenWhat = "a StateDB opened through a snapshot layer is still in use after later layers were flattened with Tree.Cap; its layer is not marked stale but no longer answers for its own root: "
 
 // coldCopy: a Copy() taken at a transaction boundary has cold caches and reads
 // through the same snapshot layer object as the original. It must answer every
@@ -392,8 +401,8 @@ func (h *hist) coldCopy(w *world, cp *kstate.StateDB, want obs, wantWhat string)
 		return nil
 	}
 	field, detail := diff(&got, &want, -1)
-	if h.tree != nil && w.viaSnap && h.flattens > w.flatAt {
-		return h.fail("snapshot-layer:reader-across-flatten:"+field, "a StateDB opened through a snapshot layer keeps being used (here: copied, so that its caches are cold) after later layers were flattened with Tree.Cap; the layer is not marked stale but no longer answers for its own root (got = cold copy, want = %s): %s", wantWhat, detail)
+	if h.acrossFlatten(w, field) {
+		return h.fail("snapshot-layer:reader-across-flatten:"+field, acrossFlattenWhat+"(got = cold copy of it, want = %s) %s", wantWhat, detail)
 	}
 	return h.fail("copy:differs-at-copy-time:"+field, "Copy() at a transaction boundary differs (got = copy, want = %s): %s", wantWhat, detail)
 }
@@ -789,21 +798,6 @@ func (h *hist) commit(w *world, o op) *failure {
 	}
 	h.endTx(w, o)
 	h.st.count("op:Commit", 1)
-	if os.Getenv("C08_DEBUG") == "3" {
-		wi := -1
-		for i, x := range h.worlds {
-			if x == w {
-				wi = i
-			}
-		}
-		fmt.Fprintf(os.Stderr, "step %d: world %d commit root %x viaSnap=%v X=%d diskroot=%x\n", h.step, wi, root[:4], w.viaSnap, o.X, func() []byte {
-			if h.tree != nil {
-				r := h.tree.DiskRoot()
-				return r[:4]
-			}
-			return nil
-		}())
-	}
 	if f := h.checkRoot(w, o, root, groot, "Commit"); f != nil {
 		return f
 	}
@@ -820,10 +814,10 @@ func (h *hist) commit(w *world, o op) *failure {
 	}
 	// variants
 	cold := o.X&1 == 1
-	contViaTree := h.tree != nil && (o.X>>1)%8 != 0
+	contViaTree := h.tree != nil && (o.X>>1)&7 != 0
 	capLayers := -1
-	if h.tree != nil && (o.X>>4)%3 == 0 {
-		capLayers = (o.X >> 6) % 3
+	if h.tree != nil && (o.X>>4)&3 == 0 {
+		capLayers = (o.X >> 6) & 3 % 3
 	}
 	db := w.db
 	if cold {
@@ -928,6 +922,9 @@ func (h *hist) copyProbe(w *world, o op) *failure {
 	wantCp.TxIndex = 0
 	if got != wantCp {
 		field, detail := diff(&got, &wantCp, -1)
+		if h.acrossFlatten(w, field) {
+			return h.fail("snapshot-layer:reader-across-flatten:"+field, acrossFlattenWhat+"(got = cold copy of it, want = its own getters) %s", detail)
+		}
 		return h.fail("copy:differs-at-copy-time:"+field, "Copy() in mid-transaction differs from the original (got = copy, want = original): %s", detail)
 	}
 	mutateAll(cp, o.X)
